@@ -142,6 +142,46 @@ func c12Run(c *fw.Ctx, kind, text string, optSets []int) {
 					if !found {
 						c.Violation("error-position-not-at-a-token", "expression %q: error %s %q quotes (%d,%d), which is not the position of any token %s", text, ae.Code, ae.Message, l, col, tokStr(base.toks))
 					}
+					// the part of the input the reference recogniser consumes is a valid beginning of a
+					// sentence: the offending token cannot lie inside it, so neither can the quoted position
+					{
+						byText := map[string]vtok{}
+						for _, v := range exprVocab {
+							byText[v.text] = v
+						}
+						vt, at := []vtok{}, []int{}
+						for i, t := range base.toks {
+							switch t.typ {
+							case tokenizers.Whitespace, tokenizers.Comment, tokenizers.Eof:
+								continue
+							case tokenizers.Integer, tokenizers.Float, tokenizers.Quoted, tokenizers.Number, tokenizers.HexDecimal:
+								vt = append(vt, vtok{t.val, "CONST", nil})
+							case tokenizers.Word:
+								vt = append(vt, vtok{t.val, "IDENT", nil})
+							default:
+								if v, ok := byText[strings.ToUpper(t.val)]; ok && v.kind != "IDENT" {
+									vt = append(vt, vtok{t.val, v.kind, nil})
+								} else {
+									vt = append(vt, vtok{t.val, "UNKNOWN", nil})
+								}
+							}
+							at = append(at, i)
+						}
+						r := &recog{toks: vt}
+						tree := r.e0()
+						if !(tree != nil && r.pos == len(vt)) {
+							lim := len(base.toks) - 1 // the end-of-input token
+							if r.pos < len(at) {
+								lim = at[r.pos]
+							}
+							if lim >= 0 && base.toks[lim].typ != tokenizers.Eof || (lim >= 0 && lim == len(base.toks)-1) {
+								ll, lc := ref[lim][0], ref[lim][1]
+								if l < ll || (l == ll && col < lc) {
+									c.Violation("error-position-inside-the-valid-prefix", "expression %q: error %s quotes (%d,%d); the input up to (%d,%d) (token %q) is a valid beginning of an expression, so the offending token is not before that", text, ae.Code, l, col, ll, lc, base.toks[lim].val)
+								}
+							}
+						}
+					}
 					// UNKNOWN_SYMBOL: the offending token is the first token that is neither an operator,
 					// bracket, comma, word, keyword, number nor string; the quoted position must be exactly its position
 					if ae.Code == "UNKNOWN_SYMBOL" {
@@ -206,7 +246,7 @@ func init() {
 		Level: "model_checking",
 		Rule: "(also: 80 boundary characters in every short context and every pattern of <=2 characters repeated up to 1000 times) 4 tokenizers x every string up to the length bound over an alphabet with LF, CR, a quote, a comment opener, a multi-character symbol and an unknown character x option sets (quick: none, each single option, the parser's set, two combinations, all on; thorough: all 128); " +
 			"oracle: token k of the option-free stream sits at the forward-scan coordinates (independent rule model, cross-checked with a fresh real scanner) of offset sum(len(values before)); tokens under options are aligned with their originals through the C15 transformer and must carry the same position; Eof one column past the last character; " +
-			"positions quoted in expression syntax errors must be the position of a token, and for UNKNOWN_SYMBOL exactly the position of the first offending token; non-trivial = (multi-line input, option set) with >=3 tokens",
+			"positions quoted in expression syntax errors (short strings, and every sequence of <=4 (thorough 5) grammar tokens written on one line and one token per line) must be the position of a token that does not lie inside the part of the input a reference recogniser consumes as a valid beginning of an expression, and for UNKNOWN_SYMBOL exactly the position of the first offending token; non-trivial = (multi-line input, option set) with >=3 tokens",
 		Assume: []string{"C04 and C15 hold for the (input, option set) (otherwise skipped and counted)", "coordinates as defined by C11's forward scan"},
 		Spaces: func(tier string) []fw.Space {
 			lens := map[string]int{"generic": 4, "expression": 4, "csv": 5, "mustache": 4, "csv+latin1": 4, "csv+wide": 4}
@@ -250,6 +290,25 @@ func init() {
 						return fmt.Sprintf("%s tokenizer, input %q repeated %d times, %d option sets", kind, stringByIndex(ca, 1+i%npat), counts[i/npat], len(sets))
 					}})
 			}
+			// positions quoted in syntax errors: every sequence of grammar tokens, on one line and one token per line
+			seqLen := 4
+			if tier == "thorough" {
+				seqLen = 5
+			}
+			nseq := countStrings(len(exprVocabSmall), seqLen) - 1
+			layout := func(i int64) string {
+				parts := []string{}
+				for _, k := range seqByIndex(len(exprVocabSmall), 1+i/2) {
+					parts = append(parts, exprVocabSmall[k].text)
+				}
+				if i%2 == 0 {
+					return strings.Join(parts, " ")
+				}
+				return strings.Join(parts, "\n  ")
+			}
+			sp = append(sp, fw.Space{Name: "syntax-error-positions", N: nseq * 2,
+				Run:  func(c *fw.Ctx, i int64) { c12Run(c, "expression", layout(i), []int{0}) },
+				Repr: func(i int64) string { return fmt.Sprintf("expression %q: position quoted in the syntax error", layout(i)) }})
 			return sp
 		},
 		Bounds: func(tier string) string {
